@@ -1,4 +1,4 @@
-import NomtModel.Api.SeekerLoop
+import NomtModel.Api.SeekerLoopProof
 /-!
 # C13 (topic: warm-up and pipelining of a merkle worker) — `RangeUpdater::update` hands the same completions to
 `handle_completion` whatever was warmed up, however full the seeker is, in whatever order the I/O completes
@@ -11,7 +11,7 @@ exactly that — a FIFO whose requests complete after arbitrary numbers of I/O c
 bounds × three latency profiles (768 runs): the loop terminates, reaches no panic site and makes exactly the calls
 `handle_completion(start, seek(read_write[start]))` of `Split.workerLoop` — the model `Api/Split.lean` / `Props/C13_Split.lean`
 reason about; and the seeded change `C13-warmup-skip-drops-warm-entry` does not.  The general statement is
-`T13_update_loop_transparent_statement` (not proved; `notes/Q34.md` (d)).
+`T13_update_loop_transparent` (proof: `Api/SeekerLoopProof.lean`).
 -/
 namespace Nomt.C13
 open Nomt Nomt.Split Nomt.SeekerLoop
@@ -81,16 +81,31 @@ theorem T13_warmup_skip_drops_warm_entry_counterexample :
   · decide +kernel
   · decide +kernel
 
-/-- **the general statement (NOT proved)**: for every sorted duplicate-free key list, every terminal function, every
-warmed-up subset (with the specified seek as its warm-up result), every `has_room` bound ≥ 1 and every latency
-profile, with enough fuel the loop returns and its calls are those of `Split.workerLoop`. -/
-def T13_update_loop_transparent_statement : Prop :=
-  ∀ (keys : List Key) (tp : Key → List Bool) (S : List Key) (room : Nat) (lat : Key → Nat), 1 ≤ room →
-    keys.Pairwise (fun a b => bitsLt a b = true) → (∀ k ∈ keys, (tp k).isPrefixOf k = true) →
+/-- **T13.warm** (warm-up and pipelining are invisible — general): for every sorted duplicate-free key list, every
+terminal function (`tp k` a prefix of `k`), EVERY warmed-up subset `S` (whichever prefix of the warm-up commands the
+warm-up phase got through before it was cut off, and more generally any subset; a warmed-up key carries the specified
+seek), every `has_room` bound ≥ 1 and every latency profile — each request completes after an arbitrary number of I/O
+completions, served out of order — the loop of `RangeUpdater::update` over a FIFO seeker (what `T5_seeker_push_order` /
+`T5_seeker_is_proveSpec` say a `Seeker` is to its owner) returns with enough fuel, reaches no panic site (no
+`min(pushes, batch_size) - 1` underflow, no index out of bounds) and calls `handle_completion(start, seek(keys[start]))`
+exactly at the batch starts of `Split.workerLoop` — the model `Props/C13_Split.lean` reasons about.  The
+`warmed_up.len() >= 512` early exit of the push loop is covered.  Proof: `Api/SeekerLoopProof.lean` (invariant: the
+outstanding completions are `skips` keys to discard followed by `keys[start, start+pushes)`, split order-preservingly
+between the warmed-up queue and the seeker; measure: unpushed keys, remaining latency, queue lengths). -/
+theorem T13_update_loop_transparent (keys : List Key) (tp : Key → List Bool) (S : List Key) (room : Nat) (lat : Key → Nat)
+    (hroom : 1 ≤ room) (hsorted : keys.Pairwise (fun a b => bitsLt a b = true))
+    (htp : ∀ k ∈ keys, (tp k).isPrefixOf k = true) :
     ∃ fuel s, updLoop (toyIface (List Bool)) keys keys.length (fun k => if S.contains k then some (tp k) else none)
         (fun start c => start + batchSize c.2 (keys.map (fun k => (k, (RW.read : RW Nat)))) start) false fuel
         { start := 0, sk := { room := room, lat := lat, spec := tp } } = some s ∧
       (workerLoop tp (keys.map (fun k => (k, (RW.read : RW Nat)))) (fun _ => true) 0 keys.length (keys.length + 1) 0).map
-          (fun bs => bs.map (fun b => (b.start, b.pos))) = some (s.calls.map (fun c => (c.1, c.2.2)))
+          (fun bs => bs.map (fun b => (b.start, b.pos))) = some (s.calls.map (fun c => (c.1, c.2.2))) :=
+  updLoop_transparent keys tp S room lat hroom hsorted htp
+
+/-- the hypotheses are met by the instance above (sorted keys, terminals that are prefixes) -/
+example : lkKeys.Pairwise (fun a b => bitsLt a b = true) ∧ (∀ k ∈ lkKeys, (lkTp k).isPrefixOf k = true) := by
+  constructor
+  · decide
+  · decide
 
 end Nomt.C13
